@@ -29,6 +29,9 @@ func schemeOf(mode string) string {
 
 var paths = []string{"cold", "cache", "batch"}
 
+// pathsWarm adds the block path over a signature cache that already holds the untampered original
+var pathsWarm = []string{"cold", "cache", "batch", "batch-warm"}
+
 type runner struct {
 	o     *drv.Out
 	w     *world
@@ -47,6 +50,8 @@ type runner struct {
 	rot   int
 	// mustReject: oracle signature to fail with when a transaction of the current family is accepted
 	mustReject string
+	// sigSuffix is appended to tampered-tx-accepted signatures of the current family
+	sigSuffix string
 }
 
 func (r *runner) fail(sig, desc string, replay any) {
@@ -159,8 +164,15 @@ func (r *runner) applyBlock(txs [][]byte) (errs []lib.ErrorI, senders [][]byte, 
 // batch: the candidate is transaction 0 of a block that also holds seven good ed25519 sends and, at
 // index 8 (same verifier lane as index 0), an ed25519 send with a bad signature: the ed25519 batch
 // equation fails and the verifier falls back to one-by-one.
-func (r *runner) batch(bz []byte) outcome {
+func (r *runner) batch(bz []byte) outcome { return r.batchWarm(bz, nil) }
+
+// batchWarm: as batch, but the signature cache first sees `warm` through CheckTx (the mempool's
+// admission of the untampered original), so the block path starts from a cache that holds it.
+func (r *runner) batchWarm(bz, warm []byte) outcome {
 	crypto.SignatureCache.Reset()
+	if warm != nil {
+		r.w.inTxn(func() { _, _ = r.w.sm.CheckTx(warm, "", nil) })
+	}
 	var oc outcome
 	oc.pre = r.bbase
 	r.w.inTxn(func() {
@@ -346,7 +358,7 @@ func (r *runner) oracle(path, label string, tx *lib.Transaction, bz []byte, oc o
 		r.fail(r.mustReject, fmt.Sprintf("%s %s: accepted (%s path) although it must be refused: %s", r.o.CurCase(), label, path, d.line()), replay)
 	}
 	if tampered != "" {
-		r.fail("C05:tampered-tx-accepted:"+tampered, fmt.Sprintf("%s: a transaction whose field %s was changed after signing was accepted (%s path)", r.o.CurCase(), tampered, path), replay)
+		r.fail("C05:tampered-tx-accepted:"+tampered+r.sigSuffix, fmt.Sprintf("%s %s: a transaction whose field %s was changed after signing was accepted (%s path)", r.o.CurCase(), label, tampered, path), replay)
 	}
 	p, err := lib.FromAny(tx.Msg)
 	if err != nil {
@@ -458,6 +470,8 @@ func (r *runner) offer(label string, tx *lib.Transaction, tampered string, warm 
 			oc = r.cache(bz, warm)
 		case "batch":
 			oc = r.batch(bz)
+		case "batch-warm":
+			oc = r.batchWarm(bz, warm)
 		}
 		res := errStr(oc.err)
 		d := &diff{}
@@ -704,8 +718,10 @@ func (r *runner) tamperAll(label string, signed *lib.Transaction, pathSel []stri
 			ps = []string{"cold"}
 			r.rot++
 			if r.rot%5 == 0 {
-				ps = paths
+				ps = pathsWarm
 			}
+		} else if len(pathSel) == len(paths) {
+			ps = pathsWarm
 		}
 		r.offer(label+"~"+tp.field, t, tp.field, warm, ps)
 	}
@@ -773,6 +789,11 @@ func Run(o *drv.Out) {
 	for i, sc := range schemes {
 		(&runner{o: o, w: w, sc: sc, mode: sc, kind: fsm.MessageSendName, seen: seen, fails: fails}).runLanes(i)
 	}
+	// long transactions (sign bytes of 1-2 kB) and the signature-cache key
+	for _, sc := range schemes {
+		(&runner{o: o, w: w, sc: sc, mode: sc, kind: fsm.MessageStakeName, seen: seen, fails: fails, sigSuffix: ":long-signbytes"}).runLong()
+	}
+	runCacheKeys(o, w, fails)
 	// multisig keys whose signer bitmap has padding bits (indices >= n) raised
 	(&runner{o: o, w: w, sc: "multi", mode: "multi", kind: fsm.MessageSendName, seen: seen, fails: fails}).runPaddingBits()
 	// the same table with every governance proposal rejected by the local configuration
